@@ -11,7 +11,7 @@ from .. import core, runner
 from . import worldcommon
 
 THEOREMS = ["ZI.World.C19_mro_remainder", "ZI.World.C19_cache_hit_same", "ZI.RO.C03_ro_eq_c3"]
-PROFILE = dict(weights=[3, 0.5, 1, 0.3, 1, 5, 2, 0.2, 0.1], nregs=(1, 2), extra=1, provq=3, nclasses=(3, 6), superobj=0.75,
+PROFILE = dict(scen_cold_super=0.1, scen_layout_super=0.06, weights=[3, 0.5, 1, 0.3, 1, 5, 2, 0.2, 0.1], nregs=(1, 2), extra=1, provq=3, nclasses=(3, 6), superobj=0.75,
                keyweights=(0.25, 0.1, 0.2, 0.45), provkinds=(0.0, 0.1, 0.15, 0.75), arity=[1, 1, 2])
 
 
